@@ -86,9 +86,112 @@ CLAIMS = {
              "the region completely and omitted bars are painted as soon as they fit, the painted prefix being a function of the current lines only).",
         note="Abstract screen model; W <= 4, H <= 3, <= 3 lines; measure_text_width = byte length; terminals larger than the bound are outside the claim.",
         ref="4/C19"),
+    "C03": dict(
+        technique="MIR path analysis with SMT feasibility queries (z3 + cvc5): frame condition of skipped draws; painting draws by " + K,
+        engine="mirsmt",
+        text="Engine M shows on the MIR of the current tree that every control-flow path of MultiState::draw and BarState::draw that returns without reaching "
+             "Drawable::draw / draw_to_term (rate-limited or hidden draw) writes no field of self and hands no mutable borrow of a field to any callee other than "
+             "the limiter query, so skipped draws cannot move zombie_lines_count / last_line_count / orphan lines (all histories, all limiter verdicts). The exact "
+             "erase range of a painting draw and the rule that text lines are never counted are the C01/C19 inductive step. Thorough tier: Kani harnesses drive "
+             "println / clear / zombie reaping / suspend on a MultiState with 2-3 members from arbitrary accounting states against the draw_to_term contract.",
+        note="Quick tier = the frame condition only. The MultiState-level Kani harnesses need MultiState::draw end to end; CBMC's symbolic execution of it takes "
+             "longer than a quick run allows (thorough tier, may end inconclusive = exit 2). One recorded known finding (bottom alignment + shrink + text lines) "
+             "belongs to draw_to_term and is watched under C01.",
+        ref="4/C03, 8.2"),
+    "C04": dict(
+        technique=K,
+        text="For each of the five finish behaviours, position/length over u64, a previous frame of 0..=2 rows and a limiter that refuses every ordinary draw, "
+             "one real BarState::finish_using_style paints exactly one frame rendered from the final state (position = length for finish*, unchanged for "
+             "abandon*, message replaced for *_with_message, nothing but the erase for finish_and_clear); dropping an unfinished BarState performs its on_finish "
+             "behaviour exactly once; dropping a finished (or explicitly cleared) one draws nothing.",
+        note="ProgressStyle::format_state and DrawState::draw_to_term are replaced by their contracts (recorder / row-stack stubs; the contracts are the "
+             "subject of C10-C13 and C01/C19); BarState level, not through the Arc<Mutex> handle; finishing inside a MultiProgress is thorough-tier only.",
+        ref="4/C04, 8.2"),
+    "C06": dict(
+        technique="MIR call-site analysis + path-wise symbolic execution of ProgressDrawTarget::drawable with SMT queries (z3 + cvc5); state equivalence by " + K,
+        engine="mirsmt",
+        text="Engine M shows for the whole library that terminal output methods are called only from draw_to_term, draw_to_term only from Drawable, Drawable "
+             "values are built only by ProgressDrawTarget::drawable, and that no path of drawable() offers a drawable for a Hidden target or offers Drawable::Term "
+             "unless Term::is_term() returned true (whatever force_draw and the limiter say): hidden / non-tty targets never reach a terminal write, for every "
+             "call history. Kani shows for hidden and non-tty bars that two symbolic numeric operations (u64 arguments), message/prefix, finish, abandon, println "
+             "and suspend leave position / length / finished / message / prefix exactly as the reference model of the visible bar (C07) and reach neither a "
+             "terminal method nor format_state (panicking stubs).",
+        note="Members of a hidden MultiProgress are covered by the gate analysis in the quick tier; their Kani harnesses (real MultiState::draw) are thorough-tier. "
+             "ProgressBar-level wrappers (e.g. set_tab_width's own early exits) are not executed by the quick tier.",
+        ref="4/C06, 8.2"),
+    "C09": dict(
+        technique=K,
+        text="Bit-precise f64: after Estimator::new and one record (position over u64, time step < 2^32 s) the rate is finite, not NaN and >= 0 at any later "
+             "query; reset(now) from ARBITRARY field values (any bit pattern) equals new(now) and a query 1 ns later returns exactly 0; a backwards position resets, "
+             "equal position or non-advancing time changes nothing; secs_to_duration never panics for any f64 bit pattern; eta() is zero when finished / length "
+             "unknown / rate zero and never panics (pos/len over u64, averages <= 1e30); per_sec() is finite and >= 0; BarState::reset forgets the estimator in "
+             "all three modes.",
+        note="estimator_weight (powf) is replaced by an arbitrary but functional weight in [0,1] (CBMC does not finish powf): the exponential-average LAW "
+             "(15 s decay) is therefore NOT decided, only sign/finiteness/reset/totality; two-record histories and duration = elapsed + eta are thorough-tier.",
+        ref="4/C09"),
+    "C10": dict(
+        technique="MIR panic-site scan with SMT path feasibility (z3 + cvc5) and native corpus replay for totality; fidelity by " + K,
+        engine="mirsmt",
+        text="Engine M shows on the MIR of the current tree that with_template / template / Template::from_str / from_str_with_tab_width / TabExpandedString::new "
+             "contain no reachable diverging operation (panic call, unwrap/expect, overflow or bounds assert, indexing/slicing) -- for templates of ANY length and "
+             "content. Kani decides single parser transitions (one symbolic ASCII character after a concrete prefix per parser state), widths of 1..=6 symbolic "
+             "digits (Ok iff the value fits u16, and then equal to it), '{' + whitespace standing for itself with the surrounding literal text preserved, and the "
+             "part list of placeholder templates with escapes and newlines.",
+        note="Totality rests on the listed std callees being total (String/Vec/char/parse; allocation failure outside the claim). Fidelity is bounded to short "
+             "templates (<= 2 literal letters either side); rendering order (concatenation in format_state) is covered by thorough-tier harnesses only.",
+        ref="4/C10, 8.2"),
+    "C11": dict(
+        technique="MIR data-flow extraction of every key arm of format_state, value equivalence by SMT (z3 + cvc5, QF_UFLIRA) with native replay; tick string and trackers by " + K,
+        engine="mirsmt",
+        text="For each of the 28 documented keys engine M locates the arm of format_state, resolves the value that reaches the formatter back to the getters "
+             "of ProgressState and shows by SMT that it equals the documented value for EVERY (position, Option<length>) in u64 x Option<u64> (total keys: length "
+             "if known else position) and that the wrapper is the documented public formatter; percent precisions are read from the promoted constants. Kani "
+             "shows current_tick_str = tick % (n-1) / final string when finished (any u64 tick, 2..=6 strings) and that custom trackers are ticked exactly once "
+             "with the post-update state on tick / set_length / inc_length / dec_length / unset_length / set_message / set_prefix and reset by reset().",
+        note="Getters and formatters are uninterpreted in the equivalence (decided by C07, C09, C13, C15, C16); the rendered TEXT of a key end to end needs "
+             "format_state under CBMC, which does not finish (> 15 min per call): those harnesses are thorough-tier and may end inconclusive.",
+        ref="4/C11, 8.2"),
+    "C15": dict(
+        technique=K,
+        text="HumanDuration: for every Duration (u64 seconds x nanos) no panic, the unit rule (largest unit with at least 1.5 of it, else seconds) and "
+             "monotonicity of the chosen unit; FormattedDuration: HH:MM:SS / Dd HH:MM:SS digits for every Duration incl. Duration::MAX; HumanCount: digit groups "
+             "of every u64 (stage-wise), HumanFloatCount: sign, grouping and rounding for NaN, +-inf and for values of 1..=7 integer digits at precisions 0..=3 "
+             "(one harness per digit-count / sign / precision class).",
+        note="Float rendering goes through std's float formatter, replaced by a marker stub where only the integer grouping is judged; HumanBytes / DecimalBytes "
+             "/ BinaryBytes delegate to the unit-prefix crate and are checked for the unit boundary arithmetic only in the thorough tier.",
+        ref="4/C15"),
+    "C16": dict(
+        technique=K,
+        text="Inductive step from an ARBITRARY consistent bar state (current tab width w0 in 0..=9; message, prefix and template literals holding tabs and "
+             "carrying w0): after set_tab_width(w), set_style(style carrying ANY width of its own), set_message / set_prefix, finish_with_message every "
+             "tab-carrying string of the bar and the style carry the bar's current width (histories of any length follow). TabExpandedString::expanded() "
+             "replaces every tab by the current width, also after set_tab_width (cache invalidated); TabRewriter (custom keys) replaces tabs by the width given.",
+        note="Texts are concrete per harness (string replacement on symbolic content allocates strings of symbolic size); that format_state renders message / "
+             "prefix / literals through expanded() and custom keys through TabRewriter(self.tab_width) is shown by the C11 key-dispatch analysis and by reading.",
+        ref="4/C16"),
+    "C17": dict(
+        technique=K,
+        text="Against mock sources/sinks returning ANY Ok(n <= asked), any error, Pending: Iterator/DoubleEnded/ExactSize next/next_back/len pass through "
+             "and advance the position by one per item; Read (read, read_vectored, read_to_string, read_exact), BufRead (fill_buf never counts, consume counts "
+             "exactly), Write (write, write_vectored, flush), Seek (all modes; position := new offset) and the tokio AsyncRead (with a pre-filled ReadBuf), "
+             "AsyncWrite, AsyncBufRead, AsyncSeek adaptors return exactly the inner result and move the position by exactly the transferred amount (wrapping u64).",
+        note="3 calls per history, buffers <= 8 bytes; AtomicPosition::allow replaced by 'refuse' (no redraw); rayon adaptors and futures Stream finishing are "
+             "outside the quick tier (rayon: concurrency, not modelled by Kani; Stream: thorough).",
+        ref="4/C17"),
+    "C18": dict(
+        technique="MIR panic-site scan with SMT path feasibility (z3 + cvc5) for the unwrap sites; fault injection by " + K,
+        engine="mirsmt",
+        text="Engine M shows for EVERY function of the library that no Result<(), io::Error> (the type of every draw / clear / terminal operation) is consumed "
+             "by unwrap / expect or by a match whose Err arm panics, on any feasible path: a failing terminal cannot panic under the bar mutex or the MultiProgress "
+             "lock (no poisoning). Kani injects a failure into terminal call k in 0..=15 (once or sticky) of one real draw_to_term (Err returned iff reached, "
+             "last_line_count untouched, no panic) and into the first (second) draw of tick / set_length / set_tab_width / println / suspend / finish / "
+             "finish_and_clear / reset / forced draw on a BarState with pos/len over u64: no panic, logical state as without the failure, the next call paints.",
+        note="Fault index concrete per harness (dropping an io::Error of symbolic existence explodes under CBMC); MultiState-level fault harnesses are "
+             "thorough-tier; other ways to turn an error into a panic than unwrap/expect/match-arm (e.g. storing it) are outside the scan.",
+        ref="4/C18, 8.2"),
 }
 
-NOT_YET = "check not built yet in this session (work in progress; see DESIGN.md section 7 for the order of work)"
+NOT_YET = "no sound quick check could be built within reach of the solver-based tools in this sandbox; see DESIGN.md section 8.2"
 
 
 def main():
